@@ -23,6 +23,6 @@ for d in seeded/*/; do
     if [ $rc -eq 1 ]; then detected="$p"; break; fi
   done
   git -C $REPO checkout -q -- .
-  if [ "$detected" = no ]; then miss=$((miss+1)); echo "$id: MISSED (checks: ${alt:-$prop})"; else ok=$((ok+1)); echo "$id: detected by $detected ($(grep -m1 signature build/seeded-$id-$detected.log | sed 's/.*signature: //'))"; fi
+  expect=$(python3 -c "import json;print(json.load(open('$d/meta.json')).get('detected',True))"); if [ "$detected" = no ] && [ "$expect" = False ]; then echo "$id: not detected (recorded limit)"; elif [ "$detected" = no ]; then miss=$((miss+1)); echo "$id: MISSED (checks: ${alt:-$prop})"; else ok=$((ok+1)); echo "$id: detected by $detected ($(grep -m1 signature build/seeded-$id-$detected.log | sed 's/.*signature: //'))"; fi
 done
 echo "SUMMARY detected=$ok missed=$miss"
